@@ -149,6 +149,8 @@ def _array_stats(sem, t, v, ctx, acc):
 
 def run_case(case, ctx):
     m = import_repo()
+    if case.get("counts"):
+        return _run_counts(case, ctx, m)
     if case.get("constants"):
         return _run_const(case, ctx, m)
     if case.get("ragged"):
@@ -269,6 +271,46 @@ def _run_refuse(case, ctx, m):
         ctx.count("refuse:right-length-accepted")
 
 
+SPECIAL_COUNTS = [-1, -2, -0xE0F, -0xE0F + 1, -0xE0F - 1, -128, -32768, -255, -256, 0, 1, 2, 3]
+
+
+@st.composite
+def count_case(draw):
+    return {"counts": True, "n": draw(st.sampled_from(SPECIAL_COUNTS)), "elem": draw(st.sampled_from(["uint8", "uint16", "char", "wchar", "int24", "E", "S"])),
+            "form": draw(st.sampled_from(["n", "n + 0", "n - 3600 + 3600", "n * 1"])), "compiled": draw(st.booleans()), "endian": draw(st.sampled_from("<>")),
+            "standalone": draw(st.booleans())}
+
+
+def _run_counts(case, ctx, m):
+    """x[expr] holds max(0, expr) elements for every value of expr, also for values that look like internal sentinels."""
+    n, et = case["n"], case["elem"]
+    cs = m.cstruct(endian=case["endian"])
+    esize = {"uint8": 1, "uint16": 2, "char": 1, "wchar": 2, "int24": 3, "E": 2, "S": 3}[et]
+    text = "enum E : uint16 { A = 1, B = 2 };\nstruct S { uint8 a; uint16 b; };\n" + f"struct Root {{ int16 n; {et} data[{case['form']}]; uint8 tail; }};\n"
+    r = lib(cs.load, text, compiled=case["compiled"])
+    if isinstance(r, Err):
+        raise Violation("definition-rejected", f"{text}: {r}", r.where)
+    want = max(0, n)
+    body = b"".join((b"A\x00" if et == "wchar" and case["endian"] == "<" else b"\x00A" if et == "wchar" else bytes([i + 1] * esize)) for i in range(want))
+    data = n.to_bytes(2, "little" if case["endian"] == "<" else "big", signed=True) + body + b"\xEE" + b"\x11\x22\x33\x44\x55\x66"
+    s = io.BytesIO(data)
+    obj = lib(cs.Root, s)
+    what = f"int16 n = {n}; {et} data[{case['form']}] (compiled={case['compiled']}, endian {case['endian']})"
+    if isinstance(obj, Err):
+        raise Violation("counts:parse-raised", f"{what}: {obj}", obj.where)
+    if len(obj.data) != want or obj.tail != 0xEE or s.tell() != 2 + want * esize + 1:
+        raise Violation("counts:wrong-count", f"{what}: {len(obj.data)} elements, tail {obj.tail:#x}, stream at {s.tell()}; max(0, n) = {want}")
+    if case["standalone"] and n <= 0 and et in ("uint8", "uint16", "int24"):
+        T = getattr(cs, et)[n]
+        s2 = io.BytesIO(b"\x01\x02\x03\x04\x05\x06")
+        v = lib(T, s2)
+        if isinstance(v, Err) or len(v) != 0 or s2.tell() != 0:
+            raise Violation("counts:wrong-count", f"cs.{et}[{n}] parsed {v!r} leaving the stream at {s2.tell()}, expected no elements")
+    ctx.count("counts:" + ("negative" if n < 0 else "non-negative"))
+    ctx.mark_nontrivial(case)
+    ctx.sample({"what": what, "elements": want}, "counts")
+
+
 @st.composite
 def const_case(draw):
     return {"constants": True, "elem": draw(st.sampled_from(["uint8", "uint16", "char", "int24"])), "r": draw(st.integers(0, 4)), "mval": draw(st.integers(0, 4)),
@@ -315,6 +357,7 @@ def stages(tier):
     q = tier == "quick"
     return [
         HypStage("constants", const_case, examples=300 if q else 2000, shards=1 if q else 2),
+        HypStage("counts", count_case, examples=400 if q else 3000, shards=1 if q else 2),
         HypStage("fields", field_case, examples=1500 if q else 6000, shards=8 if q else 16),
         HypStage("standalone", standalone_case, examples=1500 if q else 6000, shards=4 if q else 8),
         HypStage("ragged", ragged_case, examples=300 if q else 2000, shards=1 if q else 2),
